@@ -292,9 +292,12 @@ func (p *poller) modify(fd int, event Event) error {
 }
 
 func (p *poller) Del(slot *Slot) error {
-	err := p.DelRead(slot)
-	if err == nil {
-		return p.DelWrite(slot)
+	// Both directions are always removed: skipping the write interest when removing the read interest failed
+	// (e.g. EBADF) left it counted in pending forever.
+	errRead := p.DelRead(slot)
+	errWrite := p.DelWrite(slot)
+	if errRead == nil {
+		return errWrite
 	}
 	return nil
 }
